@@ -7,7 +7,57 @@ SEQ_NOTE = ("Bounded worlds of spec/MC_World.tla (<= 9 keys, <= 5 files); behavi
             "beyond; the client is sequential (concurrency is C01/C07/C08's); observation is through the public API plus the "
             "cfg-guarded hooks for synchronisation only.")
 
+HOT_NOTE = (SEQ_NOTE + " 'Notified' is read as 'dequeued by the reloader' (the client waits for the hook-observed EventsEnd before "
+            "hot_reload). Outcomes that depend on an order the code does not promise (no_record look-ups of an asset of the same pass, a fault "
+            "armed over unordered reloads) are compared for presence only.")
+
 CHECKS = {
+ "C05": dict(
+  category="model_checking",
+  text="TLC checks Converged (cached value = a fresh load from the current source and cache whenever the reloader is quiet and nothing the "
+       "asset depends on is pending) on the diamond, re-wiring and directory worlds, and the as-built sort against OrderOK on every graph "
+       "of <= 5 nodes incl. cycles; the D8 shape is the negative control. Every generated history (value edits, re-wiring, break/repair, "
+       "create/delete, directory changes, batches with duplicates and noise, hot_reload and enhance modes) is replayed on the real crate "
+       "with values, reload ids and registered dependency sets compared after every step.",
+  design="5/C05", note=HOT_NOTE + " Known finding C05/rewire-same-batch is reported as KNOWN-FINDING.",
+  technique="TLA+ specs AssetCache.tla + Reloader.tla checked by TLC; spec->code replay of TLC-generated edit/notify histories with hook-based synchronisation",
+ ),
+ "C06": dict(
+  category="model_checking",
+  text="RidStep (the id moves by one only on a rewrite) and the watcher/global-flag protocol (Watcher6.tla: true exactly when a rewrite "
+       "happened since last asked; a value read after a report is at least as new; negative control bumps the id before the swap) are "
+       "checked by TLC; the replay compares the reload id of every cached handle after every step of every generated history (who is "
+       "rewritten, how often per pass, never on un-notified edits or unknown entries), checks a ReloadWatcher and reloaded_global of every "
+       "handle around every hot_reload, and places every source read of the reloader thread inside a pass.",
+  design="5/C06", note=HOT_NOTE,
+  technique="TLA+ specs AssetCache.tla, Watcher6.tla, Reloader.tla checked by TLC; spec->code replay comparing reload ids and watcher reports",
+ ),
+ "C09": dict(
+  category="fault_enumeration",
+  text="A fault plan (k-th source read fails with one of three io kinds; k-th loader invocation errs or panics) is an environment action of "
+       "AssetCache.tla; TLC checks containment invariants over every position and kind, for initial loads and for reloads on the reloader "
+       "thread, and each (scenario, position, kind, repair, retry) history is replayed on the real crate: error of the faulted call, "
+       "untouched cached values, recording after the fault, recovery after repair, hot_reload returning.",
+  design="5/C09", note=HOT_NOTE + " One fault per armed plan, injected by the harness-owned Source/Loader.",
+  technique="TLA+ spec AssetCache.tla with fault actions checked by TLC; fault position x kind enumerated by TLC and replayed on the real crate",
+ ),
+ "C10": dict(
+  category="model_checking",
+  text="NeverRewritten / StaticEntry / InsertedNeverReloaded are checked by TLC on every history of load/remove/take/clear/get_or_insert "
+       "mixed with edits and notifications (as-built get_or_insert is the negative control), and every such history up to length 5 "
+       "(simulated beyond) is replayed on every constructor; Handle::get references are checked stable across notified edits.",
+  design="5/C10", note=HOT_NOTE,
+  technique="TLA+ spec AssetCache.tla checked by TLC; exhaustive spec->code replay of remove/insert/notify histories on all constructors",
+ ),
+ "C14": dict(
+  category="model_checking",
+  text="The recorder semantics of AMTypes.tla (fresh recorder per reloadable nested load, none inside no_record, non-reloadable nested "
+       "loads record into the outer asset) determine the exact dependency set of every asset; the replay compares it with what the real "
+       "reloader registered (Graph hook) for every asset at every quiescent point and compares which handles change reload id after "
+       "single-entry edits; helper-thread and second-cache loads are checked by a directed run.",
+  design="5/C14", note=HOT_NOTE + " Dependency sets are observed through the cfg-guarded Graph hook.",
+  technique="TLA+ spec AMTypes.tla/AssetCache.tla checked by TLC; spec->code replay comparing registered dependency sets and reload ids",
+ ),
  "C02": dict(
   category="model_checking",
   text="AssetCache.tla is the reference map; TLC checks its frame laws on every state of the bounded world, and every behaviour it "
